@@ -73,8 +73,9 @@ class FakeFS:
         if binary:
             return c if isinstance(c, (bytes, bytearray)) else c.encode("utf-8")
         if isinstance(c, (bytes, bytearray)):
-            return c.decode(encoding or "utf-8")     # strict: raises UnicodeDecodeError like open(...).read()
-        return c
+            c = c.decode(encoding or "utf-8")        # strict: raises UnicodeDecodeError like open(...).read()
+        # text mode with the default newline=None: universal newlines, as the built-in open() does
+        return c.replace("\r\n", "\n").replace("\r", "\n") if isinstance(c, str) else c
 
     def write(self, p, text):
         p = str(p)
